@@ -10,6 +10,10 @@
     code-space validity test.
  R5 the positional accumulator that turns a code into an offset must not be an unchecked
     `acc * 256 + b` over an input-length loop (arithmetic-overflow panic for codes of 9+ bytes).
+ R6 length gate of range lookups: byte-string codes are compared with range bounds by slice order
+    (lexicographic), which equals big-endian numeric order only for equal lengths; every such
+    comparison in the lookup routines is reached only through the equal-length edge of a
+    `len() == len()` test — otherwise a 1-byte prefix of a 2-byte code matches a 2-byte range.
 Not decided: the mapped values themselves.
 """
 from .. import lib as L
@@ -53,8 +57,40 @@ def strings_in(facts, fid):
     return out
 
 
+def check_range_length_gate(ctx, rule):
+    """R6 (shared with C13): slice-order comparisons in the CMap lookup routines are length-gated"""
+    n = 0
+    for fid in (M + "CMap::map", M + "CMap::source_code_for_unicode", M + "CodeRange::contains"):
+        fn = ctx.fn(fid, rule)
+        cmps = [(b, c) for b, c, a, d in L.calls_matching(fn, lambda c: (c.get("p") or "").startswith("std::cmp::PartialOrd::")
+                                                           and "[u8]" in (c.get("self") or ""))]
+        # equal-length edges: switches on `len() == len()` / `len() != len()`
+        edges = []
+        for b, blk in enumerate(fn.blocks):
+            for st in blk[0]:
+                rv = st[2]
+                if rv[0] == "bin" and rv[1] in ("Eq", "Ne") and not st[1][1]:
+                    both = all(any(L.is_call_to(cc, ["len"]) for cb, cc, aa in L.value_slice_calls(fn, FL.op_locals(o))) for o in (rv[2], rv[3]))
+                    if both:
+                        te, fe = L.bool_edges(fn, st[1][0])
+                        edges += te if rv[1] == "Eq" else fe
+        for k, (b, c) in enumerate(cmps):
+            n += 1
+            key = "%s:slice-order-cmp#%d:length-gated" % (L.short(fid), k + 1)
+            w = CF.must_pass(fn, [b], [], guard_edges=edges) if edges else [0, b]
+            if w is None:
+                ctx.ok(rule, key, "reached only through an equal-length edge", fn.where(b))
+            else:
+                ctx.violation(rule, key, "%s compares a looked-up code with a range bound by slice order (%s on [u8]) without first "
+                              "establishing that both have the same length: slice order is lexicographic, so a 1-byte prefix such as "
+                              "<01> falls inside the 2-byte range <00FF>..<0101> and the decoder emits the wrong character and consumes "
+                              "one byte too few" % (L.short(fid), L.short(c["p"])), fn.where(b), {"path_lines": [fn.line(x) for x in w][:10]})
+    ctx.floor(rule, "slice-order comparisons in CMap lookups", n, 5)
+
+
 def run(ctx):
     facts = ctx.facts
+    check_range_length_gate(ctx, "R6")
     bld = ctx.fn(M + "ToUnicodeCMapBuilder::build", "anchor")
     prs = ctx.fn(M + "CMap::parse", "anchor")
     emitted = strings_in(facts, bld.id)
